@@ -1,1 +1,381 @@
+(* C15_Proofs.v — L2 (chunking independence of the frame tracer) and L1 (transparency). *)
+From Coq Require Import Lia.
 From V Require Export C15_Spec.
+Open Scope N_scope.
+
+(* ---------------------------------------------------------------------------------------- *)
+(* take                                                                                     *)
+(* ---------------------------------------------------------------------------------------- *)
+Lemma len_app {A} (a b : list A) : len (a ++ b) = len a + len b.
+Proof. unfold len. rewrite app_length. lia. Qed.
+
+Lemma cons_ne {A} (x : A) l : x :: l <> [].
+Proof. discriminate. Qed.
+
+Lemma take_short need a : len a < need -> take need a = (a, None).
+Proof. intros H. unfold take. apply N.ltb_lt in H. rewrite H. reflexivity. Qed.
+
+Lemma take_full need a :
+  need <= len a -> take need a = (firstn (N.to_nat need) a, Some (skipn (N.to_nat need) a)).
+Proof. intros H. unfold take. destruct (N.ltb_spec (len a) need); [lia|reflexivity]. Qed.
+
+Lemma take_app_ge need a b :
+  need <= len a ->
+  take need (a ++ b) = (firstn (N.to_nat need) a, Some (skipn (N.to_nat need) a ++ b)).
+Proof.
+  intros H. rewrite take_full by (rewrite len_app; lia).
+  unfold len in H.
+  rewrite firstn_app, skipn_app.
+  replace (N.to_nat need - length a)%nat with 0%nat by lia.
+  simpl. rewrite app_nil_r. reflexivity.
+Qed.
+
+Lemma take_app_lt need a b :
+  len a < need ->
+  take need (a ++ b) = match take (need - len a) b with (d, r) => (a ++ d, r) end.
+Proof.
+  intros H. unfold take at 2.
+  destruct (N.ltb_spec (len b) (need - len a)) as [L|L].
+  - rewrite take_short by (rewrite len_app; lia). reflexivity.
+  - rewrite take_full by (rewrite len_app; lia).
+    unfold len in *.
+    rewrite firstn_app, skipn_app.
+    replace (N.to_nat need - length a)%nat with (N.to_nat (need - N.of_nat (length a))) by lia.
+    rewrite (firstn_all2 a) by lia. rewrite (skipn_all2 a) by lia. reflexivity.
+Qed.
+
+Lemma take_some_shorter need a d r :
+  0 < need -> take need a = (d, Some r) -> (length r < length a)%nat.
+Proof.
+  intros Hn. unfold take. destruct (N.ltb_spec (len a) need); [discriminate|].
+  intros E; inversion E; subst. rewrite skipn_length. unfold len in *. lia.
+Qed.
+
+Section L2.
+Variable dec : list bytes -> bytes -> option (list field).
+
+(* ---------------------------------------------------------------------------------------- *)
+(* invariant of the frame tracer                                                            *)
+(* ---------------------------------------------------------------------------------------- *)
+Definition wf (st : ftr) : Prop :=
+  (length (f_prefix st) < 9)%nat /\
+  ((f_expect st = 0 /\ f_actual st = 0) \/ f_actual st < f_expect st).
+
+Lemma wf_init isreq : wf (ft_init isreq).
+Proof. split; simpl; [lia|left; split; reflexivity]. Qed.
+
+Lemma emit_frame_shape st st2 out ok :
+  emit_frame dec st = (st2, out, ok) ->
+  f_prefix st2 = f_prefix st /\ f_expect st2 = f_expect st /\ f_actual st2 = f_actual st /\
+  f_isreq st2 = f_isreq st /\ f_pre st2 = f_pre st /\
+  (ok = true -> f_broken st2 = f_broken st) /\ (ok = false -> f_broken st2 = true /\ out = []).
+Proof.
+  unfold emit_frame.
+  destruct (((h_typ (f_hdr st) =? 1) || (h_typ (f_hdr st) =? 9) && f_inblock st) && negb (flag (f_hdr st) 2)).
+  - intros E; inversion E; subst; simpl. repeat split; auto; discriminate.
+  - destruct (parse_buf dec (f_hist st) (f_buf st)) as [[fr h']|];
+      intros E; inversion E; subst; simpl; repeat split; auto; discriminate.
+Qed.
+
+(* ---------------------------------------------------------------------------------------- *)
+(* one loop iteration on a ++ b                                                             *)
+(* ---------------------------------------------------------------------------------------- *)
+Ltac proj := cbn [f_isreq f_pre f_broken f_prefix f_hdr f_buf f_expect f_actual f_inblock f_hist andb fst snd].
+Ltac proj_in H := cbn [f_isreq f_pre f_broken f_prefix f_hdr f_buf f_expect f_actual f_inblock f_hist andb fst snd] in H.
+
+Lemma step_app st a b st1 out k :
+  wf st -> a <> [] -> ft_step dec st a = (st1, out, k) ->
+  match k with
+  | Some ra =>
+      ft_step dec st (a ++ b) = (st1, out, Some (ra ++ b)) /\ wf st1 /\ f_broken st1 = f_broken st /\
+      (length ra < length a)%nat
+  | None =>
+      (f_broken st1 = true /\ ft_step dec st (a ++ b) = (st1, out, None)) \/
+      (f_broken st1 = f_broken st /\ out = [] /\ wf st1 /\ (b <> [] -> ft_step dec st (a ++ b) = ft_step dec st1 b))
+  end.
+Proof.
+  intros [Wp We] Ha E.
+  assert (La : 0 < len a) by (destruct a; [congruence|unfold len; simpl length; lia]).
+  remember (ft_step dec st (a ++ b)) as X eqn:EX.
+  unfold ft_step in E, EX.
+  destruct (f_isreq st && (len (f_pre st) <? 24)) eqn:Pre.
+  { (* preface *)
+    apply andb_true_iff in Pre. destruct Pre as [Pq Pl]. apply N.ltb_lt in Pl.
+    remember (24 - len (f_pre st)) as need eqn:Hneed.
+    destruct (N.ltb_spec (len a) need) as [L|L].
+    - rewrite (take_short _ a L) in E. rewrite (take_app_lt _ a b L) in EX.
+      inversion E; subst st1 out k; clear E; subst X.
+      right. unfold wf. proj. repeat split; auto.
+      intros Hb. unfold ft_step. proj. rewrite Pq. rewrite len_app.
+      replace (len (f_pre st) + len a <? 24) with true by (symmetry; apply N.ltb_lt; lia). proj.
+      replace (24 - (len (f_pre st) + len a)) with (need - len a) by lia.
+      destruct (take (need - len a) b) as [d [r|]]; rewrite ?app_assoc; reflexivity.
+    - rewrite (take_full _ a L) in E. rewrite (take_app_ge _ a b L) in EX.
+      destruct (bytes_eqb (f_pre st ++ firstn (N.to_nat need) a) preface);
+        inversion E; subst st1 out k; clear E; subst X.
+      + unfold wf. proj. repeat split; auto. rewrite skipn_length. unfold len in *. lia.
+      + left. proj. split; reflexivity. }
+  destruct (f_expect st =? 0) eqn:Ex.
+  { (* frame header *)
+    apply N.eqb_eq in Ex.
+    assert (Act : f_actual st = 0) by (destruct We as [[_ ?]|?]; [assumption|lia]).
+    assert (Lp : len (f_prefix st) < 9) by (unfold len; lia).
+    remember (9 - len (f_prefix st)) as need eqn:Hneed.
+    destruct (N.ltb_spec (len a) need) as [L|L].
+    - rewrite (take_short _ a L) in E. rewrite (take_app_lt _ a b L) in EX.
+      inversion E; subst st1 out k; clear E; subst X.
+      right. unfold wf. proj. repeat split; auto.
+      + rewrite app_length. unfold len in *. lia.
+      + intros Hb. unfold ft_step. proj. rewrite Pre.
+        replace (f_expect st =? 0) with true by (symmetry; apply N.eqb_eq; assumption).
+        rewrite len_app.
+        replace (9 - (len (f_prefix st) + len a)) with (need - len a) by lia.
+        destruct (take (need - len a) b) as [d [r|]]; rewrite ?app_assoc; reflexivity.
+    - rewrite (take_full _ a L) in E. rewrite (take_app_ge _ a b L) in EX.
+      set (d := firstn (N.to_nat need) a) in *.
+      assert (Lr : (length (skipn (N.to_nat need) a) < length a)%nat)
+        by (rewrite skipn_length; unfold len in *; lia).
+      destruct (h_len (parse_hdr (f_prefix st ++ d)) =? 0) eqn:Z.
+      + destruct (emit_frame dec _) as [[st2 out2] ok] eqn:EF.
+        apply emit_frame_shape in EF. proj_in EF.
+        destruct EF as (E1 & E2 & E3 & E4 & E5 & E6 & E7).
+        apply N.eqb_eq in Z.
+        destruct ok; inversion E; subst st1 out k; clear E; subst X.
+        * unfold wf. proj. repeat split; auto; try (rewrite E1; simpl; lia); try (left; rewrite E2, E3; proj; auto).
+        * left. destruct (E7 eq_refl). split; [assumption|reflexivity].
+      + apply N.eqb_neq in Z. inversion E; subst st1 out k; clear E; subst X.
+        unfold wf. proj. repeat split; auto; try (simpl; lia). }
+  { (* frame payload *)
+    apply N.eqb_neq in Ex.
+    assert (Lt : f_actual st < f_expect st) by (destruct We as [[? _]|?]; [congruence|assumption]).
+    remember (f_expect st - f_actual st) as need eqn:Hneed.
+    destruct (N.ltb_spec (len a) need) as [L|L].
+    - rewrite (take_short _ a L) in E. rewrite (take_app_lt _ a b L) in EX.
+      inversion E; subst st1 out k; clear E; subst X.
+      right. unfold wf. proj. repeat split; auto.
+      + right. lia.
+      + intros Hb. unfold ft_step. proj. rewrite Pre.
+        replace (f_expect st =? 0) with false by (symmetry; apply N.eqb_neq; assumption).
+        replace (f_expect st - (f_actual st + len a)) with (need - len a) by lia.
+        destruct (take (need - len a) b) as [d [r|]];
+          rewrite ?app_assoc, ?len_app, ?N.add_assoc; reflexivity.
+    - rewrite (take_full _ a L) in E. rewrite (take_app_ge _ a b L) in EX.
+      assert (Lr : (length (skipn (N.to_nat need) a) < length a)%nat)
+        by (rewrite skipn_length; unfold len in *; lia).
+      destruct (emit_frame dec _) as [[st2 out2] ok] eqn:EF.
+      apply emit_frame_shape in EF. proj_in EF.
+      destruct EF as (E1 & E2 & E3 & E4 & E5 & E6 & E7).
+      destruct ok; inversion E; subst st1 out k; clear E; subst X.
+      * unfold wf. proj. repeat split; auto; try (rewrite E1; assumption); try (left; rewrite E2, E3; auto).
+      * left. destruct (E7 eq_refl). split; [assumption|reflexivity]. }
+Qed.
+
+(* a single step, without a continuation in mind *)
+Lemma step_some st a st1 out ra :
+  wf st -> a <> [] -> ft_step dec st a = (st1, out, Some ra) ->
+  wf st1 /\ f_broken st1 = f_broken st /\ (length ra < length a)%nat.
+Proof.
+  intros W Ha E. pose proof (step_app st a [] _ _ _ W Ha E) as S. simpl in S. tauto.
+Qed.
+
+(* ---------------------------------------------------------------------------------------- *)
+(* fuel                                                                                     *)
+(* ---------------------------------------------------------------------------------------- *)
+Lemma ft_loop_fuel : forall f1 f2 st d,
+  wf st -> (length d <= f1)%nat -> (length d <= f2)%nat -> ft_loop dec f1 st d = ft_loop dec f2 st d.
+Proof.
+  induction f1 as [|f1 IH]; intros f2 st d W L1 L2.
+  - destruct d; [destruct f2; reflexivity|simpl in L1; lia].
+  - destruct d as [|x d]; [destruct f2; reflexivity|].
+    destruct f2 as [|f2]; [simpl in L2; lia|].
+    cbn [ft_loop].
+    destruct (ft_step dec st (x :: d)) as [[st1 out] [ra|]] eqn:E; [|reflexivity].
+    destruct (step_some _ _ _ _ _ W (cons_ne _ _) E) as (W1 & _ & Lr).
+    simpl in Lr, L1, L2.
+    rewrite (IH f2 st1 ra W1) by lia. reflexivity.
+Qed.
+
+(* ---------------------------------------------------------------------------------------- *)
+(* trace (a ++ b) = trace a ; trace b                                                       *)
+(* ---------------------------------------------------------------------------------------- *)
+Lemma ft_loop_app : forall n a st b,
+  (length a <= n)%nat -> wf st -> f_broken st = false ->
+  ft_loop dec (length (a ++ b)) st (a ++ b) =
+  match ft_loop dec (length a) st a with
+  | (st1, o1) => match ft_trace dec st1 b with (st2, o2) => (st2, o1 ++ o2) end
+  end.
+Proof.
+  induction n as [|n IH]; intros a st b Ln W Br.
+  - destruct a; [|simpl in Ln; lia]. simpl. unfold ft_trace. rewrite Br.
+    destruct (ft_loop dec (length b) st b); reflexivity.
+  - destruct a as [|x a].
+    { simpl. unfold ft_trace. rewrite Br. destruct (ft_loop dec (length b) st b); reflexivity. }
+    change (length ((x :: a) ++ b)) with (S (length (a ++ b))).
+    change ((x :: a) ++ b) with (x :: (a ++ b)) in *.
+    cbn [ft_loop length].
+    destruct (ft_step dec st (x :: a)) as [[st1 out] k] eqn:E.
+    pose proof (step_app st (x :: a) b _ _ _ W (cons_ne _ _) E) as S.
+    change ((x :: a) ++ b) with (x :: (a ++ b)) in S.
+    destruct k as [ra|].
+    + destruct S as (S1 & W1 & B1 & Lr). rewrite S1.
+      simpl in Lr, Ln.
+      rewrite (ft_loop_fuel (length (a ++ b)) (length (ra ++ b)) st1 (ra ++ b) W1)
+        by (rewrite ?app_length; lia).
+      rewrite (IH ra st1 b) by (try lia; congruence).
+      rewrite (ft_loop_fuel (length a) (length ra) st1 ra W1) by lia.
+      destruct (ft_loop dec (length ra) st1 ra) as [s2 o2].
+      destruct (ft_trace dec s2 b) as [s3 o3]. rewrite app_assoc. reflexivity.
+    + destruct S as [[B1 S1]|(B1 & Oe & W1 & S1)].
+      * rewrite S1. unfold ft_trace. rewrite B1. rewrite app_nil_r. reflexivity.
+      * subst out. destruct b as [|y b].
+        { rewrite app_nil_r. rewrite E. unfold ft_trace. destruct (f_broken st1); reflexivity. }
+        rewrite (S1 (cons_ne _ _)).
+        unfold ft_trace. rewrite B1, Br. cbn [ft_loop length].
+        destruct (ft_step dec st1 (y :: b)) as [[s2 o2] [rb|]] eqn:E2; [|reflexivity].
+        destruct (step_some _ _ _ _ _ W1 (cons_ne _ _) E2) as (W2 & _ & Lb). simpl in Lb.
+        rewrite (ft_loop_fuel (length (a ++ y :: b)) (length b) s2 rb W2)
+          by (rewrite ?app_length; simpl; lia).
+        destruct (ft_loop dec (length b) s2 rb); reflexivity.
+Qed.
+
+Lemma ft_loop_wf : forall n st d st1 o,
+  (length d <= n)%nat -> wf st -> ft_loop dec (length d) st d = (st1, o) -> wf st1.
+Proof.
+  induction n as [|n IH]; intros st d st1 o Ln W E.
+  - destruct d; [|simpl in Ln; lia]. simpl in E. inversion E; subst; assumption.
+  - destruct d as [|x d]; [simpl in E; inversion E; subst; assumption|].
+    cbn [ft_loop length] in E.
+    destruct (ft_step dec st (x :: d)) as [[s1 out] k] eqn:E1.
+    pose proof (step_app st (x :: d) [] _ _ _ W (cons_ne _ _) E1) as S.
+    destruct k as [ra|].
+    + destruct S as (_ & W1 & _ & Lr). simpl in Lr, Ln.
+      rewrite (ft_loop_fuel (length d) (length ra) s1 ra W1) in E by lia.
+      destruct (ft_loop dec (length ra) s1 ra) as [s2 o2] eqn:E2.
+      inversion E; subst. eapply (IH s1 ra); [lia|exact W1|exact E2].
+    + inversion E; subst.
+      destruct S as [[B1 _]|(_ & _ & W1 & _)]; [|assumption].
+      (* broken after a failed parse or a bad preface: the counters are those of a legal state *)
+      clear - W E1. unfold ft_step in E1.
+      destruct (f_isreq st && (len (f_pre st) <? 24)).
+      { destruct (take _ _) as [dd [r|]]; [destruct (bytes_eqb _ _)|]; inversion E1; subst; exact W. }
+      destruct W as [Wp We].
+      destruct (f_expect st =? 0) eqn:Ex.
+      { apply N.eqb_eq in Ex.
+        assert (Act : f_actual st = 0) by (destruct We as [[_ ?]|?]; [assumption|lia]).
+        destruct (take _ _) as [dd [r|]] eqn:T.
+        - destruct (h_len _ =? 0) eqn:Z; [|inversion E1].
+          destruct (emit_frame dec _) as [[s2 o2] ok] eqn:EF. apply emit_frame_shape in EF. simpl in EF.
+          destruct EF as (F1 & F2 & F3 & _). destruct ok; inversion E1; subst.
+          apply N.eqb_eq in Z. split; [rewrite F1; simpl; lia|left; rewrite F2, F3, Z; auto].
+        - inversion E1; subst. split; simpl; [|auto].
+          unfold take in T. destruct (N.ltb_spec (len (x :: d)) (9 - len (f_prefix st))); inversion T; subst.
+          rewrite app_length. unfold len in *. lia. }
+      { apply N.eqb_neq in Ex.
+        destruct (take _ _) as [dd [r|]] eqn:T.
+        - destruct (emit_frame dec _) as [[s2 o2] ok] eqn:EF. apply emit_frame_shape in EF. simpl in EF.
+          destruct EF as (F1 & F2 & F3 & _). destruct ok; inversion E1; subst.
+          split; [rewrite F1; assumption|left; rewrite F2, F3; auto].
+        - inversion E1; subst. split; simpl; [assumption|].
+          unfold take in T. destruct (N.ltb_spec (len (x :: d)) (f_expect st - f_actual st)); inversion T; subst.
+          right. destruct We as [[? _]|?]; [congruence|lia]. }
+Qed.
+
+Lemma ft_trace_wf st d st1 o : wf st -> ft_trace dec st d = (st1, o) -> wf st1.
+Proof.
+  intros W. unfold ft_trace. destruct (f_broken st).
+  - intros E; inversion E; subst; assumption.
+  - intros E. eapply ft_loop_wf; [apply le_n|exact W|exact E].
+Qed.
+
+Lemma ft_trace_app st a b :
+  wf st ->
+  ft_trace dec st (a ++ b) =
+  match ft_trace dec st a with
+  | (st1, o1) => match ft_trace dec st1 b with (st2, o2) => (st2, o1 ++ o2) end
+  end.
+Proof.
+  intros W. unfold ft_trace at 1 2. destruct (f_broken st) eqn:Br.
+  - unfold ft_trace. rewrite Br. reflexivity.
+  - apply (ft_loop_app (length a)); auto.
+Qed.
+
+(* chunk by chunk = all at once, from any legal state: final tracer state and emitted frames *)
+Lemma ft_feed_concat : forall chunks st,
+  wf st -> ft_feed dec st chunks = ft_trace dec st (concat chunks).
+Proof.
+  induction chunks as [|c r IH]; intros st W.
+  - simpl. unfold ft_trace. destruct (f_broken st); reflexivity.
+  - simpl. rewrite ft_trace_app by assumption.
+    destruct (ft_trace dec st c) as [st1 o1] eqn:E.
+    rewrite IH by (eapply ft_trace_wf; eauto). reflexivity.
+Qed.
+
+Lemma chunking_independent_proof : forall isreq chunks,
+  ft_feed dec (ft_init isreq) chunks = ft_trace dec (ft_init isreq) (concat chunks).
+Proof. intros. apply ft_feed_concat, wf_init. Qed.
+
+Lemma same_bytes_same_frames_proof : forall isreq chunks chunks',
+  concat chunks = concat chunks' ->
+  ft_feed dec (ft_init isreq) chunks = ft_feed dec (ft_init isreq) chunks'.
+Proof. intros. rewrite !chunking_independent_proof. congruence. Qed.
+
+Lemma frames_are_the_one_shot_parse_proof : forall isreq chunks,
+  snd (ft_feed dec (ft_init isreq) chunks) = one_shot dec isreq (concat chunks).
+Proof. intros. unfold one_shot. rewrite chunking_independent_proof. reflexivity. Qed.
+
+(* broken is absorbing: nothing is emitted any more, the state no longer moves *)
+Lemma broken_absorbing_proof : forall st chunks,
+  f_broken st = true -> ft_feed dec st chunks = (st, []).
+Proof.
+  intros st chunks B. induction chunks as [|c r IH]; [reflexivity|].
+  simpl. unfold ft_trace. rewrite B. rewrite IH. reflexivity.
+Qed.
+
+End L2.
+
+(* ---------------------------------------------------------------------------------------- *)
+(* L1: what the caller sees                                                                 *)
+(* ---------------------------------------------------------------------------------------- *)
+Section L1.
+Variable dec_r dec_w : list bytes -> bytes -> option (list field).
+
+Lemma transparent_op_proof : forall c o c' r,
+  conn_op dec_r dec_w c o = Some (c', r) -> transparent_res o r.
+Proof.
+  intros c o c' r. destruct o as [data e|data k e|e|n]; simpl.
+  - destruct (ft_trace dec_r (c_rd c) data) as [rd frames].
+    destruct (sm_frames _ _ _ _) as [[m acts]|]; [|discriminate].
+    destruct ((e =? 0) || (e =? 2)).
+    + intros E; inversion E; subst; simpl; auto.
+    + destruct (cancel_conn _); [|discriminate]. intros E; inversion E; subst; simpl; auto.
+  - destruct (ft_trace dec_w (c_wr c) data) as [wr frames].
+    destruct (sm_frames _ _ _ _) as [[m acts]|]; [|discriminate].
+    destruct (e =? 0).
+    + intros E; inversion E; subst; simpl; auto.
+    + destruct (cancel_conn _); [|discriminate]. intros E; inversion E; subst; simpl; auto.
+  - destruct (cancel_conn _); [|discriminate]. intros E; inversion E; subst; simpl; auto.
+  - intros E; inversion E; subst; simpl; auto.
+Qed.
+
+Lemma transparent_run_proof : forall ops c c' rs,
+  conn_run dec_r dec_w c ops = Some (c', rs) -> Forall2 transparent_res ops rs.
+Proof.
+  induction ops as [|o r IH]; intros c c' rs; simpl.
+  - intros E; inversion E; constructor.
+  - destruct (conn_op dec_r dec_w c o) as [[c1 x]|] eqn:E1; [|discriminate].
+    destruct (conn_run dec_r dec_w c1 r) as [[c2 xs]|] eqn:E2; [|discriminate].
+    intros E; inversion E; subst. constructor; [eapply transparent_op_proof; eauto|eapply IH; eauto].
+Qed.
+
+(* whatever the tracer's state (broken or not, mid-frame or not) and whatever bytes arrive *)
+Lemma broken_conn_transparent_proof : forall c data e c' r,
+  f_broken (c_rd c) = true -> conn_op dec_r dec_w c (ORead data e) = Some (c', r) ->
+  r = RRead data e /\ c_rd c' = c_rd c.
+Proof.
+  intros c data e c' r B. simpl. unfold ft_trace. rewrite B. simpl.
+  destruct ((e =? 0) || (e =? 2)).
+  - intros E; inversion E; subst; simpl; auto.
+  - unfold cancel_conn. simpl. destruct (sm_cancel _ _ _) as [[m acts]|]; [|discriminate].
+    intros E; inversion E; subst; simpl; auto.
+Qed.
+End L1.
